@@ -56,13 +56,14 @@ theorem node_in_owner (hm : 1 ≤ m) (me : Bits) (ops : List Op) (hv : ValidHist
   subst hbb
   exact ⟨hpre, hlen, (owns_iff b' n.id).mpr (by rw [hok.pfx]; exact hpre), hg⟩
 
-/-- No bucket exceeds its capacity, and no identifier is stored twice in a bucket. -/
+/-- No bucket exceeds its capacity: every bucket of every reachable table still carries the capacity `m` the table was
+    created with (children inherit it in `split`), holds at most that many nodes, and no identifier twice. -/
 theorem capacity (hm : 1 ≤ m) (me : Bits) (ops : List Op) (hv : ValidHistory w ops)
     (k : Bits) (b : Bucket) (hb : (run (RT.init me m) ops).trie.get k = some b) :
-    b.nodes.length ≤ m ∧ (b.nodes.map (·.id)).Nodup := by
+    b.cap = m ∧ b.nodes.length ≤ b.cap ∧ (b.nodes.map (·.id)).Nodup := by
   have hwf := (run_inv hm me ops hv).1
   have hok : BucketOK m w k b := by simpa using hwf.find_leaf (hwf.get_leaf hb)
-  exact ⟨hok.cap, hok.nodup⟩
+  exact ⟨hok.capEq, by rw [hok.capEq]; exact hok.cap, hok.nodup⟩
 
 /-- Only buckets on the path of the own identifier are ever split: every proper prefix of a bucket key (= every bucket
     that was split) is a prefix of the own identifier. -/
@@ -80,7 +81,7 @@ theorem get_finds_stored (hm : 1 ≤ m) (me : Bits) (ops : List Op) (hv : ValidH
   have ho := node_in_owner hm me ops hv k b hb n hn
   have hc := capacity hm me ops hv k b hb
   simp only [RT.get, ho.2.2.2, Bucket.get]
-  exact find_of_nodup_ids hc.2 hn
+  exact find_of_nodup_ids hc.2.2 hn
 
 /-- `RoutingTable.add` terminates and never lets a KeyError escape: on every reachable table the split-and-retry
     recursion needs at most `w + 1` rounds (the model's fuel is never exhausted). -/
@@ -103,10 +104,19 @@ theorem generated_id_in_bucket (b : Bucket) (r : Nat) (hw : w % 8 = 0) (h : b.pf
   · simp [Bucket.owns]
   · simp [natToBits_length]; omega
 
-/-- ... and for every bucket of every reachable table. -/
+/-- The hypothesis on the random source, discharged for the code: the translator reads WHICH draw `generate_id` makes and
+    with what bounds (`getrandbits(n)`, `randrange(2**n)`, `randint(0, 2**n - 1)`, `randint(0, 2**n)`, one `choice("01")` per
+    bit) and generates its exclusive upper bound `Gen.genIdDrawBound n`; this theorem is false for the inclusive
+    `randint(0, 2**n)` (seeded change m3).  What remains assumed: python's `random` functions respect their documented ranges. -/
+theorem generated_id_draw_in_range (n : Nat) : Gen.genIdDrawBound n ≤ 2 ^ n := by
+  simp [Gen.genIdDrawBound]
+
+/-- ... and for every bucket of every reachable table, for every value the code's draw can return. -/
 theorem generated_id_in_reachable_bucket (hm : 1 ≤ m) (me : Bits) (ops : List Op) (hv : ValidHistory w ops) (hw : w % 8 = 0)
-    (k : Bits) (b : Bucket) (hb : (run (RT.init me m) ops).trie.get k = some b) (r : Nat) (hr : r < 2 ^ (w - k.length)) :
+    (k : Bits) (b : Bucket) (hb : (run (RT.init me m) ops).trie.get k = some b) (r : Nat)
+    (hdraw : r < Gen.genIdDrawBound (w - k.length)) :
     ∃ id, b.generateId w r = some id ∧ k <+: id ∧ id.length = w := by
+  have hr : r < 2 ^ (w - k.length) := Nat.lt_of_lt_of_le hdraw (generated_id_draw_in_range _)
   have hwf := (run_inv hm me ops hv).1
   have hok : BucketOK m w k b := by simpa using hwf.find_leaf (hwf.get_leaf hb)
   have hlen : b.pfx.length ≤ w := by rw [hok.pfx]; exact hok.depth
@@ -315,7 +325,9 @@ theorem remove_bad_removes_failed (rt : RT) :
     obtain ⟨b, _, hx⟩ := hx
     exact (bad_iff_failed x).mp (List.mem_filter.mp hx).2
 
-/-! ## every theorem instantiated on the example history / concrete values (hypotheses discharged, so none is vacuous) -/
+/-! ## theorems instantiated on the example history / concrete values: the history-level hypotheses (`1 ≤ m`, `ValidHistory`,
+    widths) are discharged; hypotheses that name a particular bucket / node / key stay universally quantified in these terms.
+    Fully closed instances: the `decide` examples. -/
 section Examples
 abbrev exMe : Bits := [true, false, true, false]
 example := partition_prefix_free (m := 2) (w := 4) (by decide) exMe exOps example_history_valid
@@ -337,6 +349,11 @@ example := generated_id_in_bucket (w := 8) { pfx := [true, false, true], nodes :
 example : Bucket.generateId 8 { pfx := [true, false, true], nodes := [], cap := 8 } 21
     = some [true, false, true, true, false, true, false, true] := by decide
 example : (⟨[], 2, true, 0, 0, 0⟩ : Node).bad = true ∧ (⟨[], 1, false, 0, 0, 0⟩ : Node).bad = false := by decide
+example := generated_id_in_reachable_bucket (m := 2) (w := 8) (by decide) [true, false, true, false, true, false, true, false] [] (by intro op h; cases h) (by decide)
+  [] { pfx := [], nodes := [], cap := 2 } (by decide) 200 (by decide)
+example := add_stores_if_room (m := 2) (w := 4) (by decide) exMe exOps example_history_valid ⟨[true, true, true, true], 0, true, 1, 1, 9⟩ rfl
+  [true, true] { pfx := [true, true], nodes := [], cap := 2 } (by decide) (by decide) (by simp)
+example := remove_bad_removes_failed (run (RT.init exMe 2) (exOps.take 7))
 example := remove_bad_exact (run (RT.init exMe 2) (exOps.take 7))
 example : ((run (RT.init exMe 2) (exOps.take 7)).removeBad.2.map (·.tag)) = [1] := by decide
 end Examples
